@@ -561,3 +561,48 @@ def r01_6(prog, rep, rid="R01.6"):
                             lv(l), r["fn"], ", ".join(lv(a) for a in args)))
     if n < 5:
         rep.broken_("rule=%s expected >=5 month-length assignments to cursor variables, found %d" % (rid, n))
+
+
+# ---------------------------------------------------------------------------
+# R01.7 range tests that lose the sign
+
+def r01_7(prog, rep, rid="R01.7", files=("evrrul.c", "evical.c", "scale.c", "instant.c", "shift.c", "bitint.c", "bitint.h", "bitint-bobs.c")):
+    """`U + d > 0` with U unsigned and d a (possibly negative) signed value is computed in unsigned arithmetic: a result that should be
+    negative is a huge positive number and passes the test.  Every comparison of an additive expression with 0 must be carried out in a
+    signed type whenever one of its non-constant operands is signed (the out-of-range case — a BYMONTHDAY=-30 in February — is exactly
+    the one the test exists for)."""
+    n = 0
+    for file in files:
+        for f in prog.fns_in(file):
+            if not f.cfg or f.file != file:
+                continue
+            k = 0
+            for b, i, x, line in f.cfg.all_elems():
+                if not isinstance(x, dict):
+                    continue
+                for nn in walk(x):
+                    if not (nn.get("k") == "bin" and nn["op"] in ("<", ">", "<=", ">=")):
+                        continue
+                    for side, other in (("l", "r"), ("r", "l")):
+                        if int_value(nn[other]) != 0:
+                            continue
+                        core = strip_casts(nn[side])
+                        if not (core.get("k") == "bin" and core["op"] in ("+", "-")):
+                            continue
+                        n += 1
+                        k += 1
+                        lost = []
+                        if core.get("s") is False:
+                            for q in walk(core):
+                                if q.get("k") == "cast" and q.get("impl") and q.get("ck") == "IntegralCast" and (q.get("from") or {}).get("s") is True \
+                                        and (q.get("to") or {}).get("s") is False and int_value(strip_casts(q["e"])) is None:
+                                    lost.append(show(strip_casts(q["e"])))
+                        key = "%s/range-test#%d" % (f.name, k)
+                        if lost:
+                            rep.fail(rid, key, f.loc(nn.get("line", line)), "`%s` is evaluated in unsigned arithmetic although %s is signed and may be negative: "
+                                     "a sum below zero wraps to a huge value and passes, so the out-of-range case the test is there for is let through "
+                                     "(a negative day-of-month beyond the month's length lands in the previous month)" % (show(nn)[:60], ", ".join(lost)))
+                        else:
+                            rep.ok(rid, key, f.loc(nn.get("line", line)), "`%s` compares in the type of its operands" % show(nn)[:60], nontrivial=(k == 1))
+    if n < 2:
+        rep.broken_("rule=%s expected >=2 comparisons of additive expressions with 0, found %d" % (rid, n))
